@@ -55,7 +55,7 @@ def _move(rng, n, R, kind):
     return R
 
 
-def gen_plan(rng, tier='quick', config='B', traces=None):
+def gen_plan(rng, tier='quick', config='B', traces=None, boost=()):
     """Draw one plan.  config 'A': queries only; 'B': queries + faults inside the property's
     quantifier; 'C': additionally the diagnostic faults (EVICT / INTERRUPT)."""
     nsess = rng.choice([1, 1, 2, 2, 3, 4])
@@ -72,6 +72,10 @@ def gen_plan(rng, tier='quick', config='B', traces=None):
     fault_rate = rng.choice([0.05, 0.1, 0.2, 0.35]) if faults else 0.0
     mip_rate = rng.choice([0.0, 0.0, 0.05, 0.15])
     grdp_rate = rng.choice([0.0, 0.0, 0.03, 0.1])
+    if 'mip' in boost:          # change-directed swarm (sim/focus.py): the working tree differs from the baseline there
+        mip_rate = max(mip_rate, rng.choice([0.15, 0.3]))
+    if 'grdp' in boost:
+        grdp_rate = max(grdp_rate, rng.choice([0.1, 0.25]))
     pool = []
     sessions = []
     for s in range(nsess):
@@ -737,6 +741,12 @@ class Adapter(object):
         _libs()
         from . import budget
         budget.install()
+        if Adapter.focus is None:
+            from . import focus
+            try:
+                Adapter.focus = focus.compute()
+            except Exception as e:
+                Adapter.focus = {'changed': [], 'focus': [], 'error': str(e)[:200]}
         import kneeliverse.metrics as metrics
         a = np.array([[0.0, 1.0], [1.0, 3.0], [2.0, 2.0]])
         metrics.residuals(a[:, 1], a[:, 0] * 2.0)
@@ -787,10 +797,18 @@ class Adapter(object):
             return 'C'
         return 'B'
 
+    focus = None
+
     def make_plan(self, base, i, tier):
         from . import core
         rng = core.rng_for('C15', base, i)
-        return gen_plan(rng, tier, self.config_of(i), Adapter.traces)
+        ch = (Adapter.focus or {}).get('changed') or []
+        boost = set()
+        if any(c in ('evaluation.mip',) for c in ch):
+            boost.add('mip')
+        if any(c.startswith('rdp.') for c in ch):
+            boost.add('grdp')
+        return gen_plan(rng, tier, self.config_of(i), Adapter.traces, tuple(sorted(boost)))
 
     def execute(self, plan, stats=None):
         return execute(plan, stats, want_events=False)
@@ -814,6 +832,9 @@ class Adapter(object):
 
     def finding_key(self, violation, plan):
         return 'oracle=%s' % violation['oracle']
+
+    def evidence_extra(self, agg):
+        return {'change_directed_focus': Adapter.focus}
 
     def describe(self, plan):
         return describe(plan)
